@@ -6,7 +6,7 @@
    is_alpha / is_alnum (Rust's char::is_alphabetic / is_alphanumeric), except where [class_ok] is assumed. *)
 From Coq Require Import List NArith Bool.
 From PV Require Import Lib.ListX Model.Lexer Model.LexerGen Model.LexerExec Proofs.LexProofs Proofs.LexTile
-  Proofs.LexRelexDefs Proofs.LexRelex Proofs.LexExecOk.
+  Proofs.LexRelexDefs Proofs.LexRelex Proofs.LexExecOk Model.LexerInterp Proofs.LexInterp.
 Import ListNotations.
 Local Open Scope N_scope.
 
@@ -123,3 +123,66 @@ Proof. exact class_ok_exec. Qed.
 (* the known class is narrow: it only contains Ident tokens whose text is one of the 13 reserved words *)
 Example c17_known_is_ident : forall s t, KeywordLikeIdent T s t -> exists w, tkind t = KIdent w /\ (In w (t_keywords T) \/ In w (words T)).
 Proof. exact (known_is_ident T). Qed.
+
+(* ---------------------------------------------------------------------------------------------------------------
+   The INNER structure of s-/f-strings: interpolation::parse (Model/LexerInterp.v) cuts the content of an Interpolation
+   token into String and Expr items.  The same clauses as for tokens, at FULL strength, for all contents and ALL
+   character-class functions (no table and no class hypothesis is needed: the inner lexer has no keywords). *)
+
+(* fuel length + 1 is always enough *)
+Theorem c17_interp_terminates : forall ia ian s f pos, (List.length s < f)%nat ->
+  interp_loop ia ian f pos s = interp_loop ia ian (S (List.length s)) pos s.
+Proof. exact interp_terminates. Qed.
+Print Assumptions c17_interp_terminates.
+
+(* every item covers at least one byte and lies within the content *)
+Theorem c17_interp_items_in_bounds : forall ia ian s its t, interp_lex ia ian s = Some its -> In t its ->
+  istart t < iend t /\ iend t <= blen s.
+Proof.
+  intros ia ian s its t H I. destruct (itiles_bounds ia ian _ _ _ (interp_tiles ia ian _ _ H) _ I) as (_ & A & B). split; [exact A|exact B].
+Qed.
+Print Assumptions c17_interp_items_in_bounds.
+
+(* the items partition the content: the first starts at 0, each one starts where the previous one ends (no gap at all, no
+   overlap), the last one ends at the end; an accepted content with no item is empty *)
+Theorem c17_interp_items_tile : forall ia ian s its, interp_lex ia ian s = Some its ->
+  (forall t ts, its = t :: ts -> istart t = 0) /\
+  (forall l1 t1 t2 l2, its = l1 ++ t1 :: t2 :: l2 -> iend t1 = istart t2) /\
+  (forall l t, its = l ++ [t] -> iend t = blen s) /\
+  (its = [] -> s = []).
+Proof.
+  intros ia ian s its H. pose proof (interp_tiles ia ian _ _ H) as Tl. repeat split.
+  - intros t ts ->. exact (itiles_first ia ian _ _ _ _ Tl).
+  - exact (itiles_contiguous ia ian _ _ _ Tl).
+  - intros l t E. rewrite (itiles_last ia ian _ _ _ Tl _ _ E). reflexivity.
+  - intros ->. exact (itiles_empty ia ian _ _ Tl).
+Qed.
+Print Assumptions c17_interp_items_tile.
+
+(* the span reported for the identifier path of an Expr item lies strictly inside the item's braces *)
+Theorem c17_interp_path_inside_braces : forall ia ian s its t p a b f, interp_lex ia ian s = Some its -> In t its ->
+  ikind t = IExpr p a b f -> a = istart t + 1 /\ a < b /\ b < iend t.
+Proof. exact interp_path_inside. Qed.
+Print Assumptions c17_interp_path_inside_braces.
+
+(* RE-LEXING, full strength: the slice of every item, parsed on its own, is accepted and yields exactly that item (same
+   kind, same text / path / format, spans moved to 0) *)
+Theorem c17_interp_relex : forall ia ian s its t, interp_lex ia ian s = Some its -> In t its ->
+  interp_lex ia ian (bslice s (istart t) (iend t))
+    = Some [{| ikind := shift_item (istart t) (ikind t); istart := 0; iend := iend t - istart t |}].
+Proof. exact interp_relex. Qed.
+Print Assumptions c17_interp_relex.
+
+(* rejected content yields no items at all *)
+Theorem c17_interp_reject_no_items : forall ia ian s, interp_lex ia ian s = None -> forall its, interp_lex ia ian s <> Some its.
+Proof. intros ia ian s H its E. rewrite H in E. discriminate. Qed.
+Print Assumptions c17_interp_reject_no_items.
+
+(* non-vacuity: the content of f"a{b.c:>5}d{{e}}" *)
+Example c17_interp_example :
+  interp_lex alpha_exec alnum_exec [97;123;98;46;99;58;62;53;125;100;123;123;101;125;125]
+  = Some [ {| ikind := IString [97]; istart := 0; iend := 1 |};
+           {| ikind := IExpr [[98]; [99]] 2 5 (Some [62; 53]); istart := 1; iend := 9 |};
+           {| ikind := IString [100; 123; 101; 125]; istart := 9; iend := 15 |} ].
+Proof. vm_compute. reflexivity. Qed.
+
